@@ -155,7 +155,7 @@ func (r *Restored) Recover(id uuid.UUID, watchdog time.Duration, opts ...coercio
 		out.NewErr = err.Error()
 		return out
 	}
-	p, werr, ok := eng.WaitPlan(ws, id, watchdog)
+	p, werr, ok := eng.WaitPlanL(ws, id, watchdog, r.Log)
 	out.Returned = ok
 	if ok {
 		if werr != nil {
